@@ -59,12 +59,69 @@ def classify_access(body):
     return ops[0]
 
 
+def split_args(text):
+    out, cur, depth = [], "", 0
+    for ch in text:
+        if ch in "([{<":
+            depth += 1
+        elif ch in ")]}>":
+            depth -= 1
+        if ch == "," and depth == 0:
+            out.append(cur.strip()); cur = ""
+        else:
+            cur += ch
+    if cur.strip():
+        out.append(cur.strip())
+    return out
+
+
+def inline_helpers(src, body, depth=2):
+    """`self.helper::<..>(args)` where `helper` is another method of the same file with a straight-line body (`let`s and a tail
+    expression, no control flow): its `let`s are hoisted and the call replaced by its tail expression, parameters substituted.
+    Anything else is left alone (and then fails the identifier allow-list: `unknown`)."""
+    for _ in range(depth):
+        m = re.search(r"\bself\s*\.\s*([a-z_][a-z0-9_]*)\s*(?:::\s*<[^>]*>)?\s*\(", body)
+        found = False
+        for m in re.finditer(r"\bself\s*\.\s*([a-z_][a-z0-9_]*)\s*(?:::\s*<[^>]*>)?\s*\(", body):
+            name = m.group(1)
+            if name in ("read", "write", "get", "get_mut"):
+                continue
+            hsig, hbody = fn_body(src, name)
+            if hbody is None or re.search(r"\b(if|match|while|for|loop|return|else|fn)\b", hbody):
+                continue
+            # argument list of the call
+            i = m.end(); d = 1; j = i
+            while j < len(body) and d:
+                d += body[j] == "("; d -= body[j] == ")"; j += 1
+            args = split_args(body[i:j - 1])
+            pm = re.search(r"\(([^)]*)\)", hsig[hsig.index(name):])
+            params = [x.split(":")[0].strip() for x in split_args(pm.group(1))] if pm else []
+            params = [x for x in params if not re.fullmatch(r"&?\s*(mut\s+)?self", x)]
+            if len(params) != len(args):
+                continue
+            hb = re.sub(r"#\[cfg\(feature\s*=\s*\"verif-hooks\"\)\]\s*[^;]*;", "", hbody)
+            for prm, a in zip(params, args):
+                if prm != a:
+                    hb = re.sub(r"\b" + re.escape(prm) + r"\b", "(" + a + ")", hb)
+            stmts = hb.rsplit(";", 1)
+            lets, tail = (stmts[0] + ";", stmts[1]) if len(stmts) == 2 else ("", stmts[0])
+            if not tail.strip():
+                continue
+            body = lets + body[:m.start()] + "(" + tail.strip() + ")" + body[j:]
+            found = True
+            break
+        if not found:
+            break
+    return body
+
+
 def primitive(src, name):
     sig, body = fn_body(src, name)
     if body is None:
         return dict(mutRecv="false", ptr=".unknown", access=".unknown", addsOffset="false", note="function not found")
     # drop cfg-gated hook lines (they only log)
     body = re.sub(r"#\[cfg\(feature\s*=\s*\"verif-hooks\"\)\]\s*[^;]*;", "", body)
+    body = inline_helpers(src, body)
     b = re.sub(r"\s+", "", body)
     mut_recv = "true" if re.search(r"&\s*mut\s+self", sig) else "false"
     ptrs = set(re.findall(r"self\.data\.(as_ptr|as_mut_ptr)\(\)", b))
